@@ -1,8 +1,357 @@
-//! Implementation runner for the `aot` area: add the modes of this area to `dispatch`.
+//! Implementation runner for the `aot` area (C16): ahead-of-time completion generators.
+//!
+//! `(aot SHELL BIN (cmd NAME item...))` builds the real `clap::Command` from the spec, calls
+//! `clap_complete::aot::generate(shell, &mut cmd, bin, &mut buf)` on fresh copies (twice) and on the
+//! already built command (once more) and prints
+//! `(det true|false) (script x<hex>) (built <dump of the BUILT command through public API>)`.
+//! A panic anywhere is caught by `main.rs` and printed as `PANIC <msg>`.
+use crate::hex;
 use crate::sexp::Sx;
+use clap::builder::PossibleValuesParser;
+use clap::{Arg, ArgAction, Command, ValueHint};
+use clap_complete::aot::{generate, Shell};
+
+fn op(l: &[Sx]) -> &Sx {
+    l.first().unwrap_or_else(|| panic!("spec: missing operand"))
+}
+
+fn s(x: &Sx) -> String {
+    match x {
+        Sx::Bytes(b) => String::from_utf8(b.clone()).unwrap_or_else(|_| panic!("spec: not UTF-8")),
+        _ => panic!("spec: expected a byte string"),
+    }
+}
+
+fn ch(x: &Sx) -> char {
+    s(x).chars().next().unwrap_or_else(|| panic!("spec: empty char"))
+}
+
+fn hint_of(name: &str) -> ValueHint {
+    match name {
+        "Unknown" => ValueHint::Unknown,
+        "Other" => ValueHint::Other,
+        "AnyPath" => ValueHint::AnyPath,
+        "FilePath" => ValueHint::FilePath,
+        "DirPath" => ValueHint::DirPath,
+        "ExecutablePath" => ValueHint::ExecutablePath,
+        "CommandName" => ValueHint::CommandName,
+        "CommandString" => ValueHint::CommandString,
+        "CommandWithArguments" => ValueHint::CommandWithArguments,
+        "Username" => ValueHint::Username,
+        "Hostname" => ValueHint::Hostname,
+        "Url" => ValueHint::Url,
+        "EmailAddress" => ValueHint::EmailAddress,
+        h => panic!("spec: unknown hint {h}"),
+    }
+}
+
+fn build_arg(items: &[Sx]) -> Arg {
+    let mut a = Arg::new(s(op(items)));
+    let mut pvs: Vec<clap::builder::PossibleValue> = vec![];
+    let mut has_pvs = false;
+    let mut action = ArgAction::Set;
+    for it in &items[1..] {
+        let l = it.args();
+        a = match it.head() {
+            "s" => a.short(ch(op(l))),
+            "l" => a.long(s(op(l))),
+            "vsa" => a.visible_short_alias(ch(op(l))),
+            "hsa" => a.short_alias(ch(op(l))),
+            "vla" => a.visible_alias(s(op(l))),
+            "hla" => a.alias(s(op(l))),
+            "act" => {
+                action = match op(l).sym() {
+                    "set" => ArgAction::Set,
+                    "append" => ArgAction::Append,
+                    "flag" => ArgAction::SetTrue,
+                    "flagfalse" => ArgAction::SetFalse,
+                    "count" => ArgAction::Count,
+                    x => panic!("spec: unknown action {x}"),
+                };
+                a
+            }
+            "num" => {
+                if l.len() != 2 {
+                    panic!("spec: num needs two operands");
+                }
+                a.num_args((l[0].num() as usize)..=(l[1].num() as usize))
+            }
+            "pv" => {
+                has_pvs = true;
+                pvs.push(clap::builder::PossibleValue::new(s(op(l))));
+                a
+            }
+            "hpv" => {
+                has_pvs = true;
+                pvs.push(clap::builder::PossibleValue::new(s(op(l))).hide(true));
+                a
+            }
+            "hint" => a.value_hint(hint_of(op(l).sym())),
+            "global" => a.global(true),
+            "hide" => a.hide(true),
+            "required" => a.required(true),
+            h => panic!("spec: unknown arg item {h}"),
+        };
+    }
+    a = a.action(action);
+    if has_pvs {
+        a = a.value_parser(PossibleValuesParser::new(pvs));
+    }
+    a
+}
+
+pub fn build_cmd(items: &[Sx]) -> Command {
+    let mut c = Command::new(s(op(items)));
+    for it in &items[1..] {
+        let l = it.args();
+        c = match it.head() {
+            "va" => c.visible_alias(s(op(l))),
+            "ha" => c.alias(s(op(l))),
+            "hide" => c.hide(true),
+            "version" => c.version("1"),
+            "propagate-version" => c.propagate_version(true),
+            "no-help-flag" => c.disable_help_flag(true),
+            "no-version-flag" => c.disable_version_flag(true),
+            "no-help-sub" => c.disable_help_subcommand(true),
+            "arg" => c.arg(build_arg(l)),
+            "cmd" => c.subcommand(build_cmd(l)),
+            h => panic!("spec: unknown cmd item {h}"),
+        };
+    }
+    c
+}
+
+fn shell_gen(shell: &str, cmd: &mut Command, bin: &str) -> Vec<u8> {
+    let mut buf: Vec<u8> = vec![];
+    match shell {
+        "bash" => generate(Shell::Bash, cmd, bin, &mut buf),
+        "zsh" => generate(Shell::Zsh, cmd, bin, &mut buf),
+        "fish" => generate(Shell::Fish, cmd, bin, &mut buf),
+        "powershell" => generate(Shell::PowerShell, cmd, bin, &mut buf),
+        "elvish" => generate(Shell::Elvish, cmd, bin, &mut buf),
+        "nushell" => generate(clap_complete_nushell::Nushell, cmd, bin, &mut buf),
+        x => panic!("spec: unknown shell {x}"),
+    }
+    buf
+}
+
+fn vis_list<'a>(all: Vec<String>, visible: Vec<String>) -> String {
+    let v: Vec<String> = all
+        .iter()
+        .map(|a| format!("({} {})", if visible.contains(a) { "v" } else { "h" }, hex(a.as_bytes())))
+        .collect();
+    v.join(" ")
+}
+
+fn opt_hex(o: Option<String>) -> String {
+    match o {
+        Some(x) => hex(x.as_bytes()),
+        None => "none".into(),
+    }
+}
+
+fn dump_arg(a: &Arg) -> String {
+    let takes = a.get_num_args().map(|r| r.takes_values()).unwrap_or(false);
+    let sa = vis_list(
+        a.get_all_short_aliases().unwrap_or_default().iter().map(|c| c.to_string()).collect(),
+        a.get_visible_short_aliases().unwrap_or_default().iter().map(|c| c.to_string()).collect(),
+    );
+    let la = vis_list(
+        a.get_all_aliases().unwrap_or_default().iter().map(|c| c.to_string()).collect(),
+        a.get_visible_aliases().unwrap_or_default().iter().map(|c| c.to_string()).collect(),
+    );
+    let pvs = if !takes {
+        "none".to_string()
+    } else {
+        match a.get_value_parser().possible_values() {
+            None => "none".to_string(),
+            Some(it) => {
+                let v: Vec<String> = it
+                    .map(|pv| format!("({} {})", if pv.is_hide_set() { "h" } else { "v" }, hex(pv.get_name().as_bytes())))
+                    .collect();
+                format!("(some{}{})", if v.is_empty() { "" } else { " " }, v.join(" "))
+            }
+        }
+    };
+    format!(
+        "(arg {} (s {}) (l {}) (sa{}{}) (la{}{}) {} {} (num {} {}) (pvs {}) (hint {:?}) {} {})",
+        hex(a.get_id().as_str().as_bytes()),
+        opt_hex(a.get_short().map(|c| c.to_string())),
+        opt_hex(a.get_long().map(|c| c.to_string())),
+        if sa.is_empty() { "" } else { " " },
+        sa,
+        if la.is_empty() { "" } else { " " },
+        la,
+        if takes { "tv" } else { "fl" },
+        if a.is_positional() { "pos" } else { "opt" },
+        a.get_num_args().map(|r| r.min_values()).unwrap_or(0),
+        a.get_num_args().map(|r| r.max_values()).unwrap_or(0),
+        pvs,
+        a.get_value_hint(),
+        if a.is_hide_set() { "hidden" } else { "shown" },
+        if a.is_global_set() { "global" } else { "local" },
+    )
+}
+
+fn dump_cmd(c: &Command) -> String {
+    let al = vis_list(
+        c.get_all_aliases().map(|x| x.to_string()).collect(),
+        c.get_visible_aliases().map(|x| x.to_string()).collect(),
+    );
+    let args: Vec<String> = c.get_arguments().map(dump_arg).collect();
+    let subs: Vec<String> = c.get_subcommands().map(dump_cmd).collect();
+    format!(
+        "(node {} {} {} (al{}{}) (args{}{}) (subs{}{}))",
+        hex(c.get_name().as_bytes()),
+        opt_hex(c.get_bin_name().map(|x| x.to_string())),
+        if c.is_hide_set() { "hidden" } else { "shown" },
+        if al.is_empty() { "" } else { " " },
+        al,
+        if args.is_empty() { "" } else { " " },
+        args.join(" "),
+        if subs.is_empty() { "" } else { " " },
+        subs.join(" "),
+    )
+}
+
+fn run_bash(args: &[&str], input: &[u8], dir: &std::path::Path) -> (bool, Vec<u8>) {
+    use std::io::Write as _;
+    use std::process::{Command as P, Stdio};
+    let mut child = P::new("bash")
+        .args(args)
+        .current_dir(dir)
+        .env_clear()
+        .env("PATH", "/usr/bin:/bin")
+        .stdin(Stdio::piped())
+        .stdout(Stdio::piped())
+        .stderr(Stdio::null())
+        .spawn()
+        .expect("spawn bash");
+    let mut stdin = child.stdin.take().unwrap();
+    let data = input.to_vec();
+    let t = std::thread::spawn(move || {
+        let _ = stdin.write_all(&data);
+    });
+    let out = child.wait_with_output().expect("bash output");
+    let _ = t.join();
+    (out.status.success(), out.stdout)
+}
+
+fn shell_quote(w: &[u8]) -> Vec<u8> {
+    let mut o = vec![b'\''];
+    for &c in w {
+        if c == b'\'' {
+            o.extend_from_slice(b"'\\''");
+        } else {
+            o.push(c);
+        }
+    }
+    o.push(b'\'');
+    o
+}
+
+/// `bash -n` on the script, then the completion function for every query
+/// (COMP_WORDS = the query's words, COMP_CWORD = last index), in an empty directory.
+fn bash_exec(script: &[u8], bin: &str, queries: &[Vec<Vec<u8>>]) -> String {
+    let dir = std::env::temp_dir().join(format!("vharness-aot-{}", std::process::id()));
+    std::fs::create_dir_all(&dir).expect("scratch dir");
+    let (ok, _) = run_bash(&["--norc", "--noprofile", "-n"], script, &dir);
+    let mut res = format!("(syntax {})", if ok { "ok" } else { "fail" });
+    if ok && !queries.is_empty() {
+        let mut input = script.to_vec();
+        input.extend_from_slice(b"\n__vq() { COMP_WORDS=(\"$@\"); COMP_CWORD=$(( $# - 1 )); COMPREPLY=(); ");
+        input.extend_from_slice(&shell_quote(format!("_{bin}").as_bytes()));
+        input.extend_from_slice(
+            b" \"$1\"; echo \"N ${#COMPREPLY[@]}\"; local r; for r in \"${COMPREPLY[@]}\"; do printf 'R %s\\n' \"$r\"; done; }\n",
+        );
+        for q in queries {
+            input.extend_from_slice(b"__vq");
+            for w in q {
+                input.push(b' ');
+                input.extend_from_slice(&shell_quote(w));
+            }
+            input.push(b'\n');
+        }
+        let (_, out) = run_bash(&["--norc", "--noprofile", "-s"], &input, &dir);
+        let mut replies: Vec<String> = vec![];
+        let mut cur: Option<(usize, Vec<String>)> = None;
+        for line in out.split(|&c| c == b'\n') {
+            if let Some(n) = line.strip_prefix(b"N ") {
+                if let Some((_, v)) = cur.take() {
+                    replies.push(format!("(r{}{})", if v.is_empty() { "" } else { " " }, v.join(" ")));
+                }
+                let n: usize = std::str::from_utf8(n).ok().and_then(|x| x.parse().ok()).unwrap_or(0);
+                cur = Some((n, vec![]));
+            } else if let Some(r) = line.strip_prefix(b"R ") {
+                if let Some((_, v)) = cur.as_mut() {
+                    v.push(hex(r));
+                }
+            }
+        }
+        if let Some((_, v)) = cur.take() {
+            replies.push(format!("(r{}{})", if v.is_empty() { "" } else { " " }, v.join(" ")));
+        }
+        while replies.len() < queries.len() {
+            replies.push("(noreply)".into());
+        }
+        res.push_str(&format!(" (replies {})", replies.join(" ")));
+    } else {
+        res.push_str(" (replies)");
+    }
+    let _ = std::fs::remove_dir(&dir);
+    res
+}
+
+fn aot(args: &[Sx]) -> String {
+    if args.len() < 3 || !matches!(args[1], Sx::Bytes(_)) || args[2].head() != "cmd" {
+        return "BADSPEC".into();
+    }
+    let shell = args[0].sym();
+    let bin = s(&args[1]);
+    let spec = args[2].args();
+    let queries: Vec<Vec<Vec<u8>>> = args[3..]
+        .iter()
+        .filter(|q| q.head() == "q")
+        .map(|q| q.args().iter().map(|w| w.bytes()).collect())
+        .collect();
+    // "valid command tree": the spec is well-formed and clap's own configuration checks accept it
+    // (Command::build runs debug_asserts.rs); the BUILT command is dumped through public API only
+    let built = std::panic::catch_unwind(std::panic::AssertUnwindSafe(|| {
+        let mut c3 = build_cmd(spec);
+        c3.set_bin_name(bin.clone());
+        c3.build();
+        dump_cmd(&c3)
+    }));
+    let built = match built {
+        Ok(d) => d,
+        Err(p) => {
+            let msg = p
+                .downcast_ref::<String>()
+                .cloned()
+                .or_else(|| p.downcast_ref::<&str>().map(|x| x.to_string()))
+                .unwrap_or_default();
+            return if msg.starts_with("spec:") {
+                "BADSPEC".into()
+            } else {
+                format!("INVALID {}", msg.replace(['\n', '\t'], " "))
+            };
+        }
+    };
+    let mut c1 = build_cmd(spec);
+    let s1 = shell_gen(shell, &mut c1, &bin);
+    let mut c2 = build_cmd(spec);
+    let s2 = shell_gen(shell, &mut c2, &bin);
+    // once more on the command that is already built
+    let s3 = shell_gen(shell, &mut c1, &bin);
+    let det = s1 == s2 && s1 == s3;
+    let exec = if shell == "bash" { bash_exec(&s1, &bin, &queries) } else { "(syntax na) (replies)".to_string() };
+    format!("(shell {shell}) (det {det}) (script {}) (built {built}) {exec}", hex(&s1))
+}
 
 /// Returns `Some(result)` when `head` is a mode of this area.
 pub fn dispatch(head: &str, args: &[Sx]) -> Option<String> {
-    let _ = (head, args);
-    None
+    match head {
+        "aot" => Some(aot(args)),
+        _ => None,
+    }
 }
